@@ -116,7 +116,7 @@ def m_checked(it, ctx, callee, args):
         if ctx.branch(ov):
             return NONE
         return some(val)
-    raise Inconclusive("saturating arithmetic")
+    return m_saturating(it, ctx, callee, args)
 
 
 @model(r"core::num::<impl (u8|u16|u32|u64|u128|usize|i8|i16|i32|i64|i128|isize)>::(trailing_zeros|leading_zeros|count_ones|is_power_of_two)")
@@ -421,10 +421,12 @@ def m_into_iter_id(it, ctx, callee, args):
     a = args[0]
     if isinstance(a, Tup) and a.name and a.name.startswith("Iter:"):
         return a
+    if isinstance(a, VecV) and a.kind in ("array", "vec"):      # by-value iteration of an array / Vec
+        return Tup((Slice(tuple(a.elems)), usize(0)), name="Iter:copied")
     raise Inconclusive("into_iter of %r (%s)" % (a, callee))
 
 
-@model(r"<(std::str::Bytes|std::slice::Iter<.*>|core::slice::Iter<.*>|std::iter::Copied<.*>) as Iterator>::next")
+@model(r"<(std::str::Bytes|std::slice::Iter<.*>|core::slice::Iter<.*>|std::iter::Copied<.*>|(std|core)::array::IntoIter<.*>|std::vec::IntoIter<.*>|alloc::vec::IntoIter<.*>) as Iterator>::next")
 def m_iter_next(it, ctx, callee, args):
     st = deref(args[0])
     if not (isinstance(st, Tup) and st.name and st.name.startswith("Iter:")):
@@ -821,3 +823,472 @@ def m_trim_end_matches(it, ctx, callee, args):
             break
         el = el[:-k]
     return Slice(el, "str")
+
+
+# ------------------------------------------------------------------------------------------
+# a wider net of std models: changes to the code under test tend to reach for these
+
+def bounded_index(ctx, idx, n, msg):
+    """index < n as a concrete value (forking), or the panic path"""
+    c = idx.conc()
+    if c is None:
+        if ctx.branch(z3.UGE(idx.t, n)):
+            raise Panic("panic: " + msg)
+        return ctx.concretize(idx, 0, n, "index")
+    if c >= n:
+        raise Panic("panic: " + msg)
+    return c
+
+
+@model(r"<(Vec<.*>|\[.*\]) as (std::ops::|core::ops::)?Index(Mut)?<usize>>::index(_mut)?")
+def m_vec_index(it, ctx, callee, args):
+    r = args[0]
+    el = elems_of(r)
+    i = bounded_index(ctx, args[1], len(el), "index out of bounds")
+    while isinstance(r, Ref) and isinstance(get_path(r.cell.v, r.path), Ref):
+        r = get_path(r.cell.v, r.path)
+    if isinstance(r, Ref):
+        return Ref(r.cell, r.path + (i,))
+    return Ref(Cell(el[i], "elem"))
+
+
+def _int_ty(callee):
+    m = re.search(r"<impl (u8|u16|u32|u64|u128|usize|i8|i16|i32|i64|i128|isize)>", callee)
+    return m.group(1) if m else None
+
+
+_INTS = r"(u8|u16|u32|u64|u128|usize|i8|i16|i32|i64|i128|isize)"
+
+
+def _lt(a, b):
+    return (a.t < b.t) if is_signed(a.ty) else z3.ULT(a.t, b.t)
+
+
+@model(r"core::num::<impl %s>::(min|max)|(std|core)::cmp::(min|max)|<%s as Ord>::(min|max)|Ord::(min|max)" % (_INTS, _INTS))
+def m_minmax(it, ctx, callee, args):
+    a, b = args[0], args[1]
+    if not (isinstance(a, Int) and isinstance(b, Int)):
+        raise Inconclusive("min/max of non-integers")
+    is_min = re.search(r"(min|max)$", canon_callee_(callee)).group(1) == "min"
+    lt = _lt(a, b)
+    return Int(z3.If(lt, a.t, b.t) if is_min else z3.If(lt, b.t, a.t), a.ty)
+
+
+def canon_callee_(c):
+    from .interp import canon_callee
+    return canon_callee(c)
+
+
+def _op(callee):
+    """last path segment of the canonical callee (generic arguments stripped)"""
+    return canon_callee_(callee).split("::")[-1]
+
+
+@model(r"<%s as Ord>::cmp|<%s as PartialOrd>::partial_cmp" % (_INTS, _INTS))
+def m_int_cmp(it, ctx, callee, args):
+    a, b = deref(args[0]), deref(args[1])
+    if ctx.branch(_lt(a, b)):
+        r = Adt("Ordering", "Less")
+    elif ctx.branch(a.t == b.t):
+        r = Adt("Ordering", "Equal")
+    else:
+        r = Adt("Ordering", "Greater")
+    return some(r) if _op(callee) == "partial_cmp" else r
+
+
+@model(r"<%s as PartialOrd>::(lt|le|gt|ge)" % _INTS)
+def m_int_partial(it, ctx, callee, args):
+    a, b = deref(args[0]), deref(args[1])
+    op = _op(callee)
+    lt, eq = _lt(a, b), a.t == b.t
+    return {"lt": lt, "le": z3.Or(lt, eq), "gt": z3.Not(z3.Or(lt, eq)), "ge": z3.Not(lt)}[op]
+
+
+@model(r"core::num::<impl %s>::(abs|signum|pow|abs_diff|rotate_left|rotate_right|swap_bytes|is_positive|is_negative|unsigned_abs)" % _INTS)
+def m_int_misc(it, ctx, callee, args):
+    a = args[0]
+    op = re.search(r">::(\w+)$", canon_callee_(callee)).group(1)
+    w = a.w
+    if op == "abs":
+        if ctx.branch(a.t == (1 << (w - 1))):
+            raise Panic("panic: attempt to negate with overflow (abs of MIN)")
+        return Int(z3.If(a.t < 0, -a.t, a.t), a.ty)
+    if op == "unsigned_abs":
+        return Int(z3.If(a.t < 0, -a.t, a.t), "u" + a.ty[1:])
+    if op == "signum":
+        return Int(z3.If(a.t > 0, z3.BitVecVal(1, w), z3.If(a.t == 0, z3.BitVecVal(0, w), z3.BitVecVal(-1, w))), a.ty)
+    if op == "is_positive":
+        return a.t > 0
+    if op == "is_negative":
+        return a.t < 0
+    if op == "abs_diff":
+        b = args[1]
+        lt = _lt(a, b)
+        return Int(z3.If(lt, b.t - a.t, a.t - b.t), "u" + a.ty[1:] if is_signed(a.ty) else a.ty)
+    if op in ("rotate_left", "rotate_right"):
+        n = args[1]
+        sh = z3.ZeroExt(w - 32, n.t) if w > 32 else z3.Extract(w - 1, 0, n.t)
+        return Int(z3.RotateLeft(a.t, sh) if op == "rotate_left" else z3.RotateRight(a.t, sh), a.ty)
+    if op == "swap_bytes":
+        bs = [z3.Extract(8 * i + 7, 8 * i, a.t) for i in range(w // 8)]
+        return Int(z3.Concat(*bs) if len(bs) > 1 else bs[0], a.ty)
+    if op == "pow":
+        e = args[1].conc()
+        if e is None or e > 8:
+            raise Inconclusive("pow with a symbolic or large exponent")
+        r = Int(1, a.ty)
+        for _ in range(e):
+            from .interp import binop
+            t = binop("MulWithOverflow", r, a)
+            if ctx.branch(t.fields[1]):
+                raise Panic("panic: attempt to multiply with overflow (pow)")
+            r = t.fields[0]
+        return r
+    raise Inconclusive(op)
+
+
+@model(r"core::num::<impl %s>::saturating_(add|sub|mul)" % _INTS)
+def m_saturating(it, ctx, callee, args):
+    from .interp import binop
+    op = re.search(r"saturating_(\w+)", callee).group(1)
+    a, b = args
+    t = binop({"add": "AddWithOverflow", "sub": "SubWithOverflow", "mul": "MulWithOverflow"}[op], a, b)
+    w = a.w
+    if is_signed(a.ty):
+        mx, mn = z3.BitVecVal((1 << (w - 1)) - 1, w), z3.BitVecVal(1 << (w - 1), w)
+        neg = (a.t < 0) if op != "mul" else z3.Xor(a.t < 0, b.t < 0)
+        if op == "sub":
+            neg = a.t < 0
+        sat = z3.If(neg, mn, mx)
+    else:
+        sat = z3.BitVecVal(0, w) if op == "sub" else z3.BitVecVal((1 << w) - 1, w)
+    return Int(z3.If(t.fields[1], sat, t.fields[0].t), a.ty)
+
+
+@model(r"core::num::<impl %s>::checked_(div|rem|shl|shr|neg)" % _INTS)
+def m_checked2(it, ctx, callee, args):
+    op = re.search(r"checked_(\w+)", callee).group(1)
+    a = args[0]
+    w = a.w
+    if op in ("div", "rem"):
+        b = args[1]
+        bad = b.t == 0
+        if is_signed(a.ty):
+            bad = z3.Or(bad, z3.And(a.t == (1 << (w - 1)), b.t == -1))
+        if ctx.branch(bad):
+            return NONE
+        from .interp import binop
+        return some(binop("Div" if op == "div" else "Rem", a, b))
+    if op in ("shl", "shr"):
+        n = args[1]
+        if ctx.branch(z3.UGE(n.t, w)):
+            return NONE
+        from .interp import binop
+        return some(binop("Shl" if op == "shl" else "Shr", a, n))
+    if ctx.branch(a.t == (1 << (w - 1)) if is_signed(a.ty) else a.t != 0):
+        return NONE
+    return some(Int(-a.t, a.ty))
+
+
+@model(r"core::num::<impl %s>::(next_power_of_two|ilog2|div_ceil|rem_euclid|div_euclid)" % _INTS)
+def m_int_misc2(it, ctx, callee, args):
+    raise Inconclusive("integer helper without a model: " + callee)
+
+
+@model(r"Option::(is_some_and|is_none_or)")
+def m_opt_is_and(it, ctx, callee, args):
+    o, f = args
+    some_case = o.variant == "Some"
+    if _op(callee) == "is_some_and":
+        return as_bool(it.call_value(ctx, f, [o.fields[0]])) if some_case else z3.BoolVal(False)
+    return as_bool(it.call_value(ctx, f, [o.fields[0]])) if some_case else z3.BoolVal(True)
+
+
+@model(r"Option::(map_or|map_or_else)")
+def m_opt_map_or(it, ctx, callee, args):
+    from .interp import TailCall
+    o, d, f = args
+    if o.variant == "Some":
+        return TailCall(f, [o.fields[0]])
+    if _op(callee) == "map_or_else":
+        return TailCall(d, [])
+    return d
+
+
+@model(r"Option::(unwrap_or_default)")
+def m_opt_unwrap_default(it, ctx, callee, args):
+    o = args[0]
+    if o.variant == "Some":
+        return o.fields[0]
+    raise Inconclusive("unwrap_or_default of None needs the type's Default")
+
+
+@model(r"Option::(as_ref|as_mut|as_deref)")
+def m_opt_as_ref(it, ctx, callee, args):
+    r = args[0]
+    o = deref(r)
+    if o.variant == "None":
+        return NONE
+    if isinstance(r, Ref):
+        return some(Ref(r.cell, r.path + (0,)))
+    return some(Ref(Cell(o.fields[0], "opt-payload")))
+
+
+@model(r"Option::take")
+def m_opt_take(it, ctx, callee, args):
+    r = args[0]
+    o = deref(r)
+    write_ref(r, NONE)
+    return o
+
+
+@model(r"Option::replace|Option::insert")
+def m_opt_replace(it, ctx, callee, args):
+    r = args[0]
+    o = deref(r)
+    write_ref(r, some(args[1]))
+    return o if _op(callee) == "replace" else Ref(r.cell, r.path + (0,))
+
+
+@model(r"Option::(or|and|xor)")
+def m_opt_or(it, ctx, callee, args):
+    a, b = args
+    op = _op(callee)
+    if op == "or":
+        return a if a.variant == "Some" else b
+    if op == "and":
+        return b if a.variant == "Some" else NONE
+    if (a.variant == "Some") != (b.variant == "Some"):
+        return a if a.variant == "Some" else b
+    return NONE
+
+
+@model(r"Option::filter")
+def m_opt_filter(it, ctx, callee, args):
+    o, f = args
+    if o.variant == "None":
+        return NONE
+    keep = as_bool(it.call_value(ctx, f, [Ref(Cell(o.fields[0], "filter-arg"))]))
+    return o if ctx.branch(keep) else NONE
+
+
+@model(r"Option::ok_or_else")
+def m_ok_or_else(it, ctx, callee, args):
+    o, f = args
+    if o.variant == "Some":
+        return Adt("Result", "Ok", (o.fields[0],))
+    return Adt("Result", "Err", (it.call_value(ctx, f, []),))
+
+
+@model(r"Result::(map|map_err|and_then|or_else|unwrap_or|unwrap_or_else|err|is_ok_and|is_err_and)")
+def m_res_combinators(it, ctx, callee, args):
+    from .interp import TailCall
+    op = _op(callee)
+    r = args[0]
+    ok = r.variant == "Ok"
+    if op == "map":
+        return Adt("Result", "Ok", (it.call_value(ctx, args[1], [r.fields[0]]),)) if ok else r
+    if op == "map_err":
+        return r if ok else Adt("Result", "Err", (it.call_value(ctx, args[1], [r.fields[0]]),))
+    if op == "and_then":
+        return TailCall(args[1], [r.fields[0]]) if ok else r
+    if op == "or_else":
+        return r if ok else TailCall(args[1], [r.fields[0]])
+    if op == "unwrap_or":
+        return r.fields[0] if ok else args[1]
+    if op == "unwrap_or_else":
+        return r.fields[0] if ok else TailCall(args[1], [r.fields[0]])
+    if op == "err":
+        return NONE if ok else some(r.fields[0])
+    if op == "is_ok_and":
+        return as_bool(it.call_value(ctx, args[1], [r.fields[0]])) if ok else z3.BoolVal(False)
+    return as_bool(it.call_value(ctx, args[1], [r.fields[0]])) if not ok else z3.BoolVal(False)
+
+
+@model(r"(core::)?bool::(<impl bool>::)?(then|then_some)")
+def m_bool_then(it, ctx, callee, args):
+    from .interp import TailCall
+    if ctx.branch(as_bool(args[0])):
+        if _op(callee) == "then_some":
+            return some(args[1])
+        return some(it.call_value(ctx, args[1], []))
+    return NONE
+
+
+@model(r"(std|core)::mem::(swap)")
+def m_mem_swap(it, ctx, callee, args):
+    a, b = args
+    va, vb = deref(a), deref(b)
+    write_ref(a, vb)
+    write_ref(b, va)
+    return UNIT
+
+
+@model(r"(std|core)::mem::(replace)")
+def m_mem_replace(it, ctx, callee, args):
+    old = deref(args[0])
+    write_ref(args[0], args[1])
+    return old
+
+
+@model(r"(std|core)::ptr::eq")
+def m_ptr_eq(it, ctx, callee, args):
+    a, b = args
+    if isinstance(a, Ref) and isinstance(b, Ref):
+        return z3.BoolVal(a.cell is b.cell and a.path == b.path)
+    raise Inconclusive("ptr::eq of non-references")
+
+
+@model(r"(std|core)::hint::spin_loop|std::thread::yield_now")
+def m_spin(it, ctx, callee, args):
+    return UNIT
+
+
+@model(r"(core::)?slice::<impl \[.*\]>::(contains)")
+def m_slice_contains(it, ctx, callee, args):
+    el = elems_of(args[0])
+    x = deref(args[1])
+    return z3.Or(*[value_eq(e, x) for e in el]) if el else z3.BoolVal(False)
+
+
+@model(r"(core::)?slice::<impl \[.*\]>::(starts_with|ends_with)")
+def m_slice_affix(it, ctx, callee, args):
+    el, p = elems_of(args[0]), elems_of(args[1])
+    if len(p) > len(el):
+        return z3.BoolVal(False)
+    part = el[:len(p)] if _op(callee) == "starts_with" else el[len(el) - len(p):]
+    return z3.And(*[value_eq(a, b) for a, b in zip(part, p)]) if p else z3.BoolVal(True)
+
+
+@model(r"core::str::<impl str>::ends_with")
+def m_str_ends_with(it, ctx, callee, args):
+    s = elems_of(args[0])
+    p = args[1]
+    if isinstance(p, Int):        # char pattern: only ASCII patterns are modelled
+        if p.conc() is None or p.conc() >= 0x80:
+            raise Inconclusive("ends_with(non-ASCII or symbolic char)")
+        return (s[-1].t == p.conc()) if s else z3.BoolVal(False)
+    p = elems_of(p)
+    if len(p) > len(s):
+        return z3.BoolVal(False)
+    return z3.And(*[a.t == b.t for a, b in zip(s[len(s) - len(p):], p)]) if p else z3.BoolVal(True)
+
+
+@model(r"(core::)?slice::<impl \[.*\]>::(split_at)")
+def m_split_at(it, ctx, callee, args):
+    el = elems_of(args[0])
+    i = bounded_index(ctx, args[1], len(el) + 1, "split_at index out of bounds")
+    return Tup((Slice(el[:i]), Slice(el[i:])))
+
+
+@model(r"(core::)?slice::<impl \[.*\]>::to_vec|<\[.*\] as ToOwned>::to_owned|<Vec<.*> as From<&\[.*\]>>::from")
+def m_to_vec(it, ctx, callee, args):
+    return VecV(elems_of(args[0]), "vec")
+
+
+@model(r"<str as ToOwned>::to_owned|<str as ToString>::to_string|<String as From<&str>>::from|String::from_str|<&str as Into<String>>::into"
+       r"|<String as Clone>::clone|<String as ToString>::to_string|core::str::<impl str>::to_string|<str as std::string::ToString>::to_string")
+def m_to_string(it, ctx, callee, args):
+    return VecV(elems_of(args[0]), "string")
+
+
+@model(r"Vec::(clear)|String::(clear)")
+def m_clear(it, ctx, callee, args):
+    v = deref(args[0])
+    write_ref(args[0], VecV((), v.kind))
+    return UNIT
+
+
+@model(r"Vec::(truncate)|String::(truncate)")
+def m_truncate(it, ctx, callee, args):
+    v = deref(args[0])
+    n = args[1].conc()
+    if n is None:
+        n = len(v.elems) if ctx.branch(z3.UGE(args[1].t, len(v.elems))) else ctx.concretize(args[1], 0, len(v.elems), "truncate length")
+    if v.kind == "string" and n < len(v.elems):
+        if not ctx.branch(is_char_boundary_term(v.elems, n)):
+            raise Panic("panic: String::truncate not on a char boundary")
+    write_ref(args[0], VecV(v.elems[:n], v.kind))
+    return UNIT
+
+
+@model(r"Vec::(extend_from_slice)|String::(push_str)")
+def m_extend(it, ctx, callee, args):
+    v = deref(args[0])
+    write_ref(args[0], VecV(v.elems + tuple(elems_of(args[1])), v.kind))
+    return UNIT
+
+
+@model(r"Vec::(insert)")
+def m_vec_insert(it, ctx, callee, args):
+    v = deref(args[0])
+    i = bounded_index(ctx, args[1], len(v.elems) + 1, "insertion index out of bounds")
+    write_ref(args[0], VecV(v.elems[:i] + (args[2],) + v.elems[i:], v.kind))
+    return UNIT
+
+
+@model(r"Vec::(remove|swap_remove)")
+def m_vec_remove(it, ctx, callee, args):
+    v = deref(args[0])
+    i = bounded_index(ctx, args[1], len(v.elems), "removal index out of bounds")
+    x = v.elems[i]
+    if _op(callee) == "swap_remove":
+        el = list(v.elems)
+        el[i] = el[-1]
+        el = el[:-1]
+    else:
+        el = v.elems[:i] + v.elems[i + 1:]
+    write_ref(args[0], VecV(el, v.kind))
+    return x
+
+
+@model(r"Vec::(last|first)|Vec::get")
+def m_vec_get(it, ctx, callee, args):
+    el = elems_of(args[0])
+    op = _op(callee)
+    if op == "get":
+        return m_slice_get(it, ctx, callee, args)
+    if not el:
+        return NONE
+    return some(Ref(Cell(el[-1] if op == "last" else el[0], "elem")))
+
+
+@model(r"String::pop")
+def m_string_pop(it, ctx, callee, args):
+    v = deref(args[0])
+    if not v.elems:
+        return NONE
+    ch, k = decode_last_char(ctx, list(v.elems))
+    write_ref(args[0], VecV(v.elems[:-k], "string"))
+    return some(ch)
+
+
+@model(r"(core::)?char::methods::<impl char>::(to_ascii_uppercase|to_ascii_lowercase)")
+def m_char_case(it, ctx, callee, args):
+    c = deref(args[0])
+    up = _op(callee).endswith("uppercase")
+    lo, hi = (0x61, 0x7A) if up else (0x41, 0x5A)
+    inr = z3.And(z3.UGE(c.t, lo), z3.ULE(c.t, hi))
+    return Int(z3.If(inr, c.t ^ 0x20, c.t), "char")
+
+
+@model(r"(core::)?char::methods::<impl char>::to_digit")
+def m_to_digit(it, ctx, callee, args):
+    c, radix = args[0], args[1].conc()
+    if radix is None or not (2 <= radix <= 36):
+        raise Inconclusive("to_digit radix")
+    d = z3.If(z3.And(z3.UGE(c.t, 0x30), z3.ULE(c.t, 0x39)), c.t - 0x30,
+              z3.If(z3.And(z3.UGE(c.t, 0x61), z3.ULE(c.t, 0x7A)), c.t - 0x61 + 10,
+                    z3.If(z3.And(z3.UGE(c.t, 0x41), z3.ULE(c.t, 0x5A)), c.t - 0x41 + 10, z3.BitVecVal(99, 32))))
+    if ctx.branch(z3.ULT(d, radix)):
+        return some(Int(d, "u32"))
+    return NONE
+
+
+@model(r"((core::)?char::methods::<impl char>|char)::from_u32|(core::)?char::convert::from_u32")
+def m_from_u32(it, ctx, callee, args):
+    v = args[0]
+    ok = z3.And(z3.ULE(v.t, 0x10FFFF), z3.Not(z3.And(z3.UGE(v.t, 0xD800), z3.ULE(v.t, 0xDFFF))))
+    if ctx.branch(ok):
+        return some(Int(v.t, "char"))
+    return NONE
